@@ -1,8 +1,13 @@
 """C20 -- Named styles resolve through a well-behaved theme stack.
 
 Part "stack" (E2, explicit-state BFS over operation histories on a real Console)
-    state      = the event history; the Console is rebuilt by replaying it on a
-                 fresh Console (fresh Theme objects per event)
+    state      = the event history; the session is rebuilt by replaying it on a fresh Console
+                 with ONE Theme object per theme id for the whole history (so the same object
+                 is pushed again and again, as a program does) and with the full probe vector
+                 looked up after EVERY replayed event (as a session that prints between theme
+                 operations does, so any per-console memo is populated). Every transition out
+                 of a state of depth <= 2 (quick) / every transition (thorough) is executed a
+                 second time with no lookup before the judged one, and judged again.
     events     = push_theme(T, inherit) | use_theme(T, inherit).__enter__ | pop_theme |
                  use_theme.__exit__(None..) | use_theme.__exit__(exception)  with
                  T in {T1..T4} x Theme(inherit in {True, False}); the harness holds the
@@ -16,12 +21,19 @@ Part "stack" (E2, explicit-state BFS over operation histories on a real Console)
                  all probes (names, definitions, unparsable text, default=) are compared;
                  pop/exit must restore the observation vector recorded before the matching
                  push (reference-free clause); popping the base must raise ThemeStackError
-                 and change nothing; on every new state all 130 default names are swept
+                 and change nothing; after every event every Theme object's own .styles must
+                 be what it was at construction; on every new state all 130 default names
+                 are swept
     canonical  = per level (effective table over the name universe, block-owned flag) of the
-                 reference + the observed lookup vector + a fingerprint of the real
-                 ThemeStack (entry sizes, get bound to the top entry). States are
-                 partitioned over shards by the canonical form of the entry directly above
-                 the base, so `states` is a sum over disjoint owners.
+                 reference + the greatest height the history has reached (= the set of depths
+                 at which lookups have been made, the part of a lookup memo's key that the
+                 stack alone does not determine) + the observed lookup vector + a fingerprint
+                 of the real ThemeStack (entry sizes, get bound to the top entry). Theme
+                 objects are part of the state only while unmodified (a modification is a
+                 violation and is not expanded). States are partitioned over shards by the
+                 canonical form of the entry directly above the base (the root shard owns the
+                 bare base after excursions to height 1..5), so `states` is a sum over
+                 disjoint owners.
     A transition that violates is reported and its target is not expanded (consequences
     of one defect do not produce further keys).
 
@@ -35,11 +47,13 @@ Part "config" (E1): Theme.config -> Theme.from_file over a C06-style universe of
     equal in both directions and every style equal; thorough adds all pairs U x U.
 
 Measured on this sandbox (CPU seconds summed over workers; the machine was shared while
-measuring, on 16 idle cores divide by ~14), tree with ThemeContext.__enter__ passing inherit on:
-    quick     622,799 states  1,000,141 transitions (592,944 states left at the depth cap,
-              space of height <= 4 closed), 9,586 config themes (7 s CPU)       ~215 s CPU
-    thorough  622,799 states  1,889,557 transitions, closed at height <= 5,
-              1,070,486 config themes                                          ~1200 s CPU
+measuring, on 16 idle cores divide by ~14):
+    quick     624,225 states  1,002,384 transitions + 47,768 re-executions without intermediate
+              lookups (594,303 states left at the depth cap, space of height <= 4 closed),
+              9,586 config themes (7 s CPU)                                    ~400-480 s CPU
+    thorough  654,147 states  2,939,709 transitions, each executed a second time without
+              intermediate lookups; closed at height <= 5 (longest shortest history 8 events),
+              1,070,486 config themes                                          ~2500 s CPU
 """
 import collections
 import io
@@ -50,7 +64,7 @@ from ..refstyle import RefStyle, ATTRS
 ID = "C20"
 LEVEL = "model_checking"
 ENGINE = "E2"
-CAP_S = {"quick": 240, "thorough": 1500}
+CAP_S = {"quick": 600, "thorough": 1800}
 TECHNIQUE = ("explicit-state BFS over push/pop/use_theme histories on a real Console (state = history, replayed on a "
              "fresh Console, dedup on reference stack + observed lookups), judged in lock-step by a reference theme "
              "stack; bounded-exhaustive config round trip over a style universe")
@@ -921,16 +935,25 @@ def describe(tier, seed, res):
     return {
         "rule": "BFS over histories of {push_theme, use_theme enter} x {T1..T4} x Theme(inherit T/F) x inherit T/F (32 events), "
                 "pop_theme, use_theme exit, use_theme exit by exception on Console(theme = B0 | B1 | None); stack height <= %d; %s. "
+                "Each history is replayed in one session: one Theme object per theme id, all probes looked up after every event"
+                "; a second execution without lookups before the last event is judged too (%s). "
                 "After every transition 10 probes (a, b, c, repr.number, repr.str, 'bold red', 'not a style', three with default=) "
                 "are compared with the reference stack, pop/exit with the lookups recorded before the matching push; every new "
                 "state is swept over all 130 default names + a, b, c. A transition is non-trivial when a probe resolves through an "
                 "inheriting push to a lower entry, falls back to parsing, or the event is a pop/exit. Config round trip: %d themes "
                 "over a universe of %d styles." % (
                     MAXHEIGHT, "depth <= %d" % QUICK_DEPTH if tier == "quick" else "until no new canonical state appears",
+                    "all transitions" if tier == "thorough" else "histories of <= %d events" % (QUICK_BOTH_MODES_DEPTH + 1),
                     c.get("config_themes", 0), c.get("max_style_universe", 0)),
         "assumptions": [
-            "canonical state = reference levels (effective table over {a,b,c,repr.number,repr.str}, block flag) + observed probe "
-            "vector + (entry sizes, get-bound-to-top) of the real ThemeStack; histories reaching a seen canonical state are not extended",
+            "canonical state = reference levels (effective table over {a,b,c,repr.number,repr.str}, block flag) + greatest height "
+            "reached so far + observed probe vector + (entry sizes, get-bound-to-top) of the real ThemeStack; histories reaching a "
+            "seen canonical state are not extended",
+            "a session keeps one Theme object per theme id and looks all probes up after every event; hidden per-console state "
+            "is assumed to depend on the history only through the stack, the depths visited and the unmodified Theme objects "
+            "(which themes were at a depth earlier is covered one step deep: every push is tried from every such state)",
+            "the run without intermediate lookups covers %s" % (
+                "every transition" if tier == "thorough" else "transitions out of states of depth <= %d" % QUICK_BOTH_MODES_DEPTH),
             "only balanced use is explored: pop_theme on an explicitly pushed entry or the base, __exit__ of the innermost block "
             "when its entry is on top",
             "a violating transition's target is not expanded, so behaviour behind a defect is not explored until it is fixed",
@@ -949,6 +972,7 @@ def describe(tier, seed, res):
             "closed_up_to_height": MAXHEIGHT if closed else (QUICK_DEPTH if not res.capped else 0),
             "frontier_states_at_depth_cap": depth_capped,
             "config_themes": c.get("config_themes", 0),
+            "transitions_without_intermediate_lookups": c.get("transitions_without_intermediate_lookups", 0),
         },
     }
 
